@@ -38,7 +38,7 @@ var initialProto *config.Config
 
 func initialConfig() *config.Config {
 	if initialProto != nil {
-		return cloneCfg(initialProto)
+		return freshCopy(initialProto)
 	}
 	c := config.DefaultConfig
 	c.Config.Status.Favicon = "data:image/png;base64,AAAA" // instead of 5 KB of base64 in every JSON encode
@@ -46,7 +46,7 @@ func initialConfig() *config.Config {
 	c.Config.Lite.Enabled = true
 	c.Config.Lite.Routes = []liteconfig.Route{route("play.example.test", "backend.example.test:25565", 30*time.Second)}
 	initialProto = cloneCfg(&c)
-	return cloneCfg(initialProto)
+	return freshCopy(initialProto)
 }
 
 var contentCache = map[string]string{}
@@ -76,6 +76,23 @@ func cloneCfg(c *config.Config) *config.Config {
 		panic(err)
 	}
 	return &out
+}
+
+// freshCopy copies the struct by value and gives it its own route slices (the only parts the
+// harness or the code under test ever write to); immutable parts (motd, maps never written) are
+// shared with the prototype. Much cheaper than a JSON round trip per operation.
+func freshCopy(p *config.Config) *config.Config {
+	c := *p
+	if p.Config.Lite.Routes != nil {
+		rs := make([]liteconfig.Route, len(p.Config.Lite.Routes))
+		for i, r := range p.Config.Lite.Routes {
+			rs[i] = r
+			rs[i].Host = append([]string(nil), r.Host...)
+			rs[i].Backend = append([]string(nil), r.Backend...)
+		}
+		c.Config.Lite.Routes = rs
+	}
+	return &c
 }
 
 func content(c *config.Config) string {
